@@ -29,6 +29,79 @@ CLAIMED = {
              "is external (its rewrites are only truth-table checked); value-vs-truthiness of and/or operands belongs to C02.",
         technique="Lean 4 proof (decide over regenerated tables + lifting lemmas, induction) + differential correspondence + truth-table oracle",
     ),
+    "C15": dict(
+        text="Machine-checked proof on a stated expression fragment: a value reported by the literal_value model is the value of the expression "
+             "in every environment (environment independence of name-free evaluation, mutual induction over expressions), raising expressions "
+             "are unknown, known values involve no call outside the pure builtins, and/or have value semantics. The evaluator doubles as reference "
+             "semantics validated against CPython eval. 6 theorems.",
+        design="4/C15",
+        note="Trusted: Lean kernel; Lit.lean tied to core.literal_value (suite lit) and to CPython eval (suite pyeval); floats, string methods, "
+             "dict/set, repetition are outside the fragment (covered by the eval oracle only).",
+        technique="Lean 4 proof (mutual structural induction) + differential correspondence with literal_value and with CPython eval",
+    ),
+    "C16": dict(
+        text="Machine-checked proof on the control skeleton: a statement that the is_blocking model reports blocking never completes normally "
+             "(inside a loop: surely leaves the function) under every oracle = every valuation of unknown tests and iteration counts, every fuel; "
+             "deleting what follows a blocking statement preserves outcome and consumed oracle stream. 5 theorems. The model equals core.is_blocking on "
+             "all enumerated statement shapes; the semantics equals CPython on instrumented functions.",
+        design="4/C16",
+        note="Trusted: Lean kernel; Flow.lean tied by suites blocking (exhaustive shapes) and exec (CPython); has_side_effect has no Lean model (position "
+             "probe + execution oracle only); loop else / try are outside the skeleton fragment.",
+        technique="Lean 4 proof (simultaneous induction on fuel for statements and statement lists) + exhaustive-shape correspondence + all-valuation execution oracle",
+    ),
+    "C20": dict(
+        text="Machine-checked proof for the scheduler / pass / orchestration paths: skip-file text is returned unchanged; no scheduled rewrite has an "
+             "ignored range; a source line all of whose overlapping ranges count as ignored occurs verbatim in the text a pass produces (through the "
+             "rollback too); the line scan is characterised exactly. 5 theorems.",
+        design="4/C20",
+        note="Trusted: Lean kernel; Lines/Sched models tied by suites lines and sched-ignored; the direct editing path (alter_code) and raw-text stages "
+             "are outside the theorems (annotate-a-line oracle, known finding listed).",
+        technique="Lean 4 proof (splice algebra + scheduler invariant) + differential correspondence + annotate-every-line oracle",
+    ),
+    "C05": dict(
+        text="Machine-checked proof of the memoisation protocol: under the purity hypothesis (no rule hands back a changed cached tree) the cache stays "
+             "well-formed and faithful after every history and the output of a call is independent of the history (evictions included); a witness "
+             "shows the hypothesis cannot be dropped. 4 theorems. The hypothesis is checked for every pipeline rule on each run.",
+        design="4/C05",
+        note="Trusted: Lean kernel; Cache.lean tied to functools.lru_cache by suite lru; rule purity is a checked assumption (suite purity), not a theorem; "
+             "Python aliasing is modelled as 'the tree left in the slot'.",
+        technique="Lean 4 proof (invariant by induction over call histories) + LRU correspondence + purity monitor + fresh-process oracle",
+    ),
+    "C01": dict(
+        text="Machine-checked composition theorem: if every stage preserves the observation of a program then format_code does, for every option "
+             "combination, pass budget and rule order (also under permutation of the rule list). The orchestration model equals the real format_code "
+             "on stub rule systems (output, full call sequence, pass counts). Per-stage preservation is a theorem only for modelled rules; all rules "
+             "are examined by the execution sweep over a fixed corpus x option combinations. 4 theorems.",
+        design="4/C01",
+        note="Trusted: Lean kernel; Driver.lean tied by suite driver; CPython exec as program meaning; stub world for open snippets; corpus inputs "
+             "on which the reference tree already fails are baseline-excluded (corpus/baseline_C01.json) with witnesses in KNOWN_FINDINGS.txt.",
+        technique="Lean 4 proof (composition by induction over loops and rule lists) + orchestration correspondence + curated execution sweep",
+    ),
+    "C03": dict(
+        text="Machine-checked proof of the guards: a scheduler pass, every fix/chain iteration, hence every @fix rule and sub/subn, returns valid text for "
+             "valid input whatever the rewrites; format_file never replaces a valid file by an invalid one nor rewrites an unchanged one; format_code is "
+             "valid-preserving if the unguarded stages are (hypotheses named). 5 theorems.",
+        design="4/C03",
+        note="Trusted: Lean kernel; Sched/Driver models tied by suites sched-rollback, formatfile, driver; validity preservation of unguarded stages is a "
+             "hypothesis examined by the format sweep and the per-rule validity sweep.",
+        technique="Lean 4 proof (guard invariants) + differential correspondence + validity sweep",
+    ),
+    "C04": dict(
+        text="Machine-checked proof of the termination budgets: at most 2*MAX_FILE_PASSES invocations of the multi-run pipeline per call (constant "
+             "regenerated from the code), at most max_iter passes per fix/chain, early returns for skip-file / blank / invalid input. 3 theorems. Absence of "
+             "exceptions is examined by the format sweep in isolated workers with a wall-clock limit over ~10000 corpus cases.",
+        design="4/C04",
+        note="Trusted: Lean kernel; Driver model tied by suite driver (incl. cyclic stub systems); 'no exception anywhere in the rule code' is not a theorem.",
+        technique="Lean 4 proof (loop budgets) + orchestration correspondence + crash/timeout sweep in isolated processes",
+    ),
+    "C09": dict(
+        text="Machine-checked proof of the orchestration facts: the convergence loop exits only on a repeated text or a spent budget; a text on which every "
+             "stage is the identity is a fixed point of format_code and of all its iterates; on a cycle the loop returns a member of the cycle (witness); "
+             "fix remembers only the initial text. 5 theorems. Convergence of the rule set is examined by the 7-fold iteration sweep.",
+        design="4/C09",
+        note="Trusted: Lean kernel; Driver model tied by suite driver; confluence/termination of the ~95 heuristic rules is not a theorem.",
+        technique="Lean 4 proof (loop invariants) + orchestration correspondence + iteration sweep",
+    ),
 }
 
 NOT_YET = {}
